@@ -41,7 +41,7 @@ def k_leg(ctx, name, cases, syntaxes, skip=None, max_report=10):
                     st[cenc + "_enc_diff"] += 1
                     dis.append({"module": txt, "type": n, "op": l, "c": str(c)[:400], "model": mm[:400], "syntax": cenc, "stage": "encode"})
                 if cc.startswith("ok "):
-                    dl.append(f"@{n} dec {cdec} {cc[3:]}"); dm.append(f"@{n} l2dec {ldec} {cc[3:]}"); dmeta.append((n, t))
+                    dl.append(f"@{n} decq {cdec} {cc[3:]}"); dm.append(f"@{n} l2dec {ldec} {cc[3:]}"); dmeta.append((n, t))
             if dl:
                 co, _ = ctx.run_c_bisect(exe, dl)
                 rc, mo, err = ctx.run_lines(build.model_exe(), dm)
